@@ -1191,7 +1191,7 @@ func main() {
 
 	// ---- generated ----
 	nHist := a.N / 25
-	nBrowser := a.N / 25
+	nBrowser := a.N / 16
 	nCb := a.N / 5
 	nStart := a.N / 20
 	maxLen := 12
